@@ -8,7 +8,7 @@
    model the witnesses meet the statement; no general proof of it exists (it needs the inversion of the tokenizer on the
    formatter's output).  Proved: *)
 Require Import Bebop.front.Tok Bebop.front.Parse Bebop.front.Fmt Bebop.front.FmtFacts Bebop.front.FmtSafe.
-Require Import Bebop.front.LexInv Bebop.front.ParseInv Bebop.front.FmtInv Bebop.front.MsgInv Bebop.front.GenInv Bebop.front.Items Bebop.front.TyInv Bebop.front.TyMsg Bebop.front.TyItems Bebop.front.TyUnion Bebop.front.TyUnionItem Bebop.front.Schema.
+Require Import Bebop.front.LexInv Bebop.front.ParseInv Bebop.front.FmtInv Bebop.front.MsgInv Bebop.front.GenInv Bebop.front.Items Bebop.front.TyInv Bebop.front.TyMsg Bebop.front.TyItems Bebop.front.TyUnion Bebop.front.TyUnionItem Bebop.front.TyOpcode Bebop.front.TyEnum Bebop.front.TyDep Bebop.front.TyDoc Bebop.front.TyDec Bebop.front.TyImport Bebop.front.Schema.
 From Coq Require Import List.
 
 Definition C16_partial_statement : Prop :=
@@ -56,7 +56,7 @@ Qed.
 Print Assumptions C16_records.
 
 (* and with enums and container types, through the item framework (front/GenInv.v, front/Items.v, front/TyItems.v, front/Schema.v):
-   any sequence of struct, readonly struct, message, enum and union definitions (union branches structs or messages, front/TyUnion.v), field types identifiers, array[T], map[K, V] and T[]
+   any sequence of struct, readonly struct, message, enum and union definitions (union branches structs or messages, front/TyUnion.v; structs and messages optionally under an [opcode(..)] line, front/TyOpcode.v; enums optionally with an integer base type, front/TyEnum.v; message fields optionally deprecated, front/TyDep.v; structs and messages optionally under `//` doc comment lines, front/TyDoc.v - Format writes them back unchanged and puts no blank line before them; and, generically, ANY sequence of comment and opcode lines before a struct, readonly struct, message, union or typed enum, front/TyDec.v; import lines, front/TyImport.v), field types identifiers, array[T], map[K, V] and T[]
    nested to any depth (front/TyInv.v: format_type on the tokens of a type expression), every layout *)
 Definition C16_schema_statement : Prop :=
   forall dl lay tail,
